@@ -67,7 +67,11 @@ FIX_COMMITS = ["d6ae502 (passive start-up cancellation: port/listener leak)",
                "25ab17f (unreadable directory listed as empty with a success reply)",
                "dfd8374 (ThrottleStreamIO default throttles dict shared by all streams)",
                "b02d52b (repr() of a User showed the password)",
-               "6d1bc94 (worker wrapper: task looked up once; amends ca6ffb5)"]
+               "6d1bc94 (worker wrapper: task looked up once; amends ca6ffb5)",
+               "820558f (listing of a name the server encoding cannot express ended the session)",
+               "4824c94 (listing parsers: non-ASCII digits, years below 1000)",
+               "2fbf5a3 (CWD / CDUP are dispatcher barriers)",
+               "f646d71 (data socket of a finished transfer outlived its session)"]
 
 # dimensions added after the fourth wave of seeded changes (plug-in APIs as part of the input space)
 EXTRA = {
